@@ -31,6 +31,9 @@ pub mod serde_json {
                     match r { Some(v) => old(self).view().contains_key(k@) && v == old(self).view()[k@], None => !old(self).view().contains_key(k@) }
         { unimplemented!() }
     }
+    pub broadcast axiom fn ax_json_object_ext(a: Value, b: Value)
+        requires a is Object, b is Object, a->Object_0.view() == b->Object_0.view()
+        ensures #[trigger] a->Object_0.view() == #[trigger] b->Object_0.view() ==> a == b;
     // the JSON value of a one-member object {k: v}
     pub open spec fn is_obj1(j: Value, k: Seq<char>, v: Value) -> bool {
         j is Object && j->Object_0.view() == vstd::map::Map::<Seq<char>, Value>::empty().insert(k, v)
@@ -87,45 +90,63 @@ pub mod serde {
     use vstd::prelude::*;
     use crate::serde_json::Value;
     verus!{
-    // serde's Serializer protocol is not modelled (Verus rejects the mutual recursion Serialize <-> Serializer):
-    // every `serialize` body is external and `json()` states, as an ASSUMPTION, the JSON tree it produces.
+    // Abstract serializer protocol (what serde_json's serializers implement): a map under construction collects
+    // (key, value) members; `end` yields the JSON object with exactly those members.  `JsonSpec` (the JSON tree of a
+    // value) is a separate supertrait so that Serializer/SerializeMap do not mention Serialize (Verus rejects that cycle).
+    pub trait JsonSpec { spec fn json(&self) -> Value; }
     pub trait Serializer: Sized {
         type Ok; type Error;
         type SerializeMap: ser::SerializeMap<Ok = Self::Ok, Error = Self::Error>;
-        fn serialize_map(self, len: Option<usize>) -> Result<Self::SerializeMap, Self::Error>;
+        fn serialize_map(self, len: Option<usize>) -> (r: Result<Self::SerializeMap, Self::Error>)
+            ensures r is Ok ==> <Self::SerializeMap as ser::SerializeMap>::entries(&r->Ok_0) == vstd::map::Map::<Seq<char>, Value>::empty()
+                             && <Self::SerializeMap as ser::SerializeMap>::pending(&r->Ok_0) is None;
     }
-    pub trait Serialize {
-        spec fn json(&self) -> Value;
-        fn serialize<S: Serializer>(&self, serializer: S) -> Result<S::Ok, S::Error>;
+    pub trait Serialize: JsonSpec {
+        fn serialize<S: Serializer>(&self, serializer: S) -> (r: Result<S::Ok, S::Error>)
+            ensures r is Ok ==> <S::SerializeMap as ser::SerializeMap>::ok_json(r->Ok_0) == self.json();
     }
+    impl JsonSpec for Value { open spec fn json(&self) -> Value { *self } }
     impl Serialize for Value {
-        open spec fn json(&self) -> Value { *self }
         #[verifier::external_body]
-        fn serialize<S: Serializer>(&self, serializer: S) -> Result<S::Ok, S::Error> { unimplemented!() }
+        fn serialize<S: Serializer>(&self, serializer: S) -> (r: Result<S::Ok, S::Error>) { unimplemented!() }
     }
-    impl<T: Serialize + ?Sized> Serialize for &T { open spec fn json(&self) -> Value { (**self).json() }
+    impl<T: JsonSpec + ?Sized> JsonSpec for &T { open spec fn json(&self) -> Value { (**self).json() } }
+    impl<T: JsonSpec + ?Sized> JsonSpec for Box<T> { open spec fn json(&self) -> Value { (**self).json() } }
+    impl JsonSpec for str { uninterp spec fn json(&self) -> Value; }
+    impl JsonSpec for String { uninterp spec fn json(&self) -> Value; }
+    impl<T: Serialize + ?Sized> Serialize for &T {
         #[verifier::external_body]
-        fn serialize<S: Serializer>(&self, serializer: S) -> Result<S::Ok, S::Error> { unimplemented!() } }
-    impl<T: Serialize + ?Sized> Serialize for Box<T> { open spec fn json(&self) -> Value { (**self).json() }
+        fn serialize<S: Serializer>(&self, serializer: S) -> (r: Result<S::Ok, S::Error>) { unimplemented!() } }
+    impl<T: Serialize + ?Sized> Serialize for Box<T> {
         #[verifier::external_body]
-        fn serialize<S: Serializer>(&self, serializer: S) -> Result<S::Ok, S::Error> { unimplemented!() } }
-    impl Serialize for str { uninterp spec fn json(&self) -> Value;
+        fn serialize<S: Serializer>(&self, serializer: S) -> (r: Result<S::Ok, S::Error>) { unimplemented!() } }
+    impl Serialize for str {
         #[verifier::external_body]
-        fn serialize<S: Serializer>(&self, serializer: S) -> Result<S::Ok, S::Error> { unimplemented!() } }
-    impl Serialize for String { uninterp spec fn json(&self) -> Value;
+        fn serialize<S: Serializer>(&self, serializer: S) -> (r: Result<S::Ok, S::Error>) { unimplemented!() } }
+    impl Serialize for String {
         #[verifier::external_body]
-        fn serialize<S: Serializer>(&self, serializer: S) -> Result<S::Ok, S::Error> { unimplemented!() } }
+        fn serialize<S: Serializer>(&self, serializer: S) -> (r: Result<S::Ok, S::Error>) { unimplemented!() } }
     pub broadcast axiom fn ax_json_str(s: &str) ensures (#[trigger] s.json()) is String && s.json()->String_0@ == s@;
     pub broadcast axiom fn ax_json_string(s: &String) ensures (#[trigger] s.json()) is String && s.json()->String_0@ == s@;
     pub mod ser {
         use vstd::prelude::*;
+        use crate::serde_json::Value;
+        use super::JsonSpec;
         verus!{
         pub trait SerializeMap: Sized {
             type Ok; type Error;
-            fn serialize_key<T: ?Sized>(&mut self, key: &T) -> Result<(), Self::Error>;
-            fn serialize_value<T: ?Sized>(&mut self, value: &T) -> Result<(), Self::Error>;
-            fn serialize_entry<K: ?Sized, V: ?Sized>(&mut self, key: &K, value: &V) -> Result<(), Self::Error>;
-            fn end(self) -> Result<Self::Ok, Self::Error>;
+            spec fn entries(&self) -> vstd::map::Map<Seq<char>, Value>;
+            spec fn pending(&self) -> Option<Seq<char>>;
+            spec fn ok_json(ok: Self::Ok) -> Value;
+            fn serialize_key<T: ?Sized + JsonSpec>(&mut self, key: &T) -> (r: Result<(), Self::Error>)
+                ensures r is Ok ==> key.json() is String && final(self).pending() == Some(key.json()->String_0@) && final(self).entries() == old(self).entries();
+            fn serialize_value<T: ?Sized + JsonSpec>(&mut self, value: &T) -> (r: Result<(), Self::Error>)
+                requires old(self).pending() is Some
+                ensures r is Ok ==> final(self).pending() is None && final(self).entries() == old(self).entries().insert(old(self).pending()->Some_0, value.json());
+            fn serialize_entry<K: ?Sized + JsonSpec, V: ?Sized + JsonSpec>(&mut self, key: &K, value: &V) -> (r: Result<(), Self::Error>)
+                ensures r is Ok ==> key.json() is String && final(self).pending() is None && final(self).entries() == old(self).entries().insert(key.json()->String_0@, value.json());
+            fn end(self) -> (r: Result<Self::Ok, Self::Error>)
+                ensures r is Ok ==> Self::ok_json(r->Ok_0) is Object && Self::ok_json(r->Ok_0)->Object_0.view() == self.entries();
         }
         }
     }
@@ -137,9 +158,10 @@ pub mod erased_serde {
     verus!{
     pub trait Serialize { spec fn erased_json(&self) -> Value; }
     impl<T: crate::serde::Serialize> Serialize for T { open spec fn erased_json(&self) -> Value { self.json() } }
-    impl<'a> crate::serde::Serialize for dyn Serialize + 'a { open spec fn json(&self) -> Value { self.erased_json() }
+    impl<'a> crate::serde::JsonSpec for dyn Serialize + 'a { open spec fn json(&self) -> Value { self.erased_json() } }
+    impl<'a> crate::serde::Serialize for dyn Serialize + 'a {
         #[verifier::external_body]
-        fn serialize<S: crate::serde::Serializer>(&self, serializer: S) -> Result<S::Ok, S::Error> { unimplemented!() } }
+        fn serialize<S: crate::serde::Serializer>(&self, serializer: S) -> (r: Result<S::Ok, S::Error>) { unimplemented!() } }
     // the JSON tree of a serialisable value, obtained the way GenericBuilder::set_claim does it
     // (erased_serde::serialize into a serde_json byte serializer, then serde_json::from_slice): ASSUMED to be value.json()
     // Box::new(v) followed by the unsizing coercion to Box<dyn Serialize>: the boxed value is v (ASSUMED only because
